@@ -437,7 +437,9 @@ def _(c):
         st = mk_motion_state(b)
         args = {"cmd": b.string("cmd"), "extruderPosition": b.optreal("e"), "feedRate": b.optreal("f"),
                 "finalZ": b.optreal("z"), "xyPairs": plm_shape(b)}
-        return {"self": st, "args": args, "ghost": {"P": mk_printer(b)}}
+        # ghost of the C05 domain: cycle length L, file retraction depth dF, deepest file depth so far maxF
+        return {"self": st, "args": args, "ghost": {"P": mk_printer(b), "L": b.real("cycle.L"), "dF": b.real("file.depth"),
+                                                    "maxF": b.real("file.maxdepth")}}
     c.pre(pre)
     c.requires("Inv", lambda f: inv_all(f.self, f.g["P"]))
     c.requires("I-E", lambda f: inv_e(f.self, f.g["P"]))
@@ -499,6 +501,7 @@ def _(c):
                        eq(RP.orig_push(log), val(n.position.E_AXIS.current) - val(o.position.E_AXIS.current)))
     c.ensures("C04.forwarded-move-pushes-file-amount", push_exact, props=("C04",))
 
+    c.ensures("C05.retraction-depth-coupling", lambda f: depth_clause(f, is_move, plm_run), props=("C05",))
     c.ensures("Inv-preserved", lambda f: inv_all(f.self, plm_run(f)[0]), props=("C01", "C02", "C03", "C04", "C05", "C14", "C15", "C06"),
               cases={"relative-positioning": lambda f: And(f.self.excluding, Not(f.self.position.X_AXIS.absoluteMode)),
                      "relative-extrusion": lambda f: Not(f.self.position.E_AXIS.absoluteMode)})
@@ -545,3 +548,47 @@ def _(c):
     c.ensures("Inv-preserved", lambda f: And(inv_type(f.self), inv_excl(f.self),
                                              inv_pos(f.self, RP.run(f.g["P"], f.self.position, f.result, None, None)[0])),
               props=("C14", "C01", "C03"))
+
+
+# ------------------------------------------------------------------------------------ C05: retraction depth (software retractions)
+def depth(P):
+    return P.hw - P.fil
+
+
+def depth_inv(st, P, dF, L, maxF):
+    """Coupling of physical and file retraction depth on the C05 domain (matched cycles of equal length L):
+    no recorded retraction -> both depths 0; recorded and not yet recovered by the file -> both L; recorded and the
+    file's recovery was skipped inside a region (owed) -> file 0, printer still L.  The printer is never deeper than
+    the deepest depth the file has requested (maxF)."""
+    lr = st.lastRetraction
+    none = True if lr is None else is_none(lr)
+    base = And(P.hw >= P.fil, L > 0, dF >= 0, dF <= maxF, depth(P) <= maxF, depth(P) >= dF)
+    if lr is None:
+        return And(base, eq(dF, 0), eq(depth(P), 0))
+    sw = And(Not(none), Not(lr.firmwareRetract))
+    return And(base, Or(none, Not(lr.firmwareRetract)),
+               Implies(none, And(eq(dF, 0), eq(depth(P), 0))),
+               Implies(sw, And(eq(val(lr.extrusionAmount), L), eq(depth(P), L), maxF >= L,
+                               If(lr.recoverExcluded, eq(dF, 0), eq(dF, L)))))
+
+
+def depth_clause(f, is_move, plm_run):
+    o, n = f.old.self, f.self
+    P = f.g["P"]
+    L, dF, maxF = f.g["L"], f.g["dF"], f.g["maxF"]
+    Q, log = plm_run(f)
+    dE = val(n.position.E_AXIS.current) - val(o.position.E_AXIS.current)
+    mv = is_move(f)
+    # the file's side of the domain: E-only commands alternate retract(L) / recover(L); moves extrude only at depth 0
+    file_ok = And(o.position.E_AXIS.absoluteMode,
+                  If(mv, And(dE >= 0, Implies(dE > 0, eq(dF, 0))),
+                     Or(eq(dE, 0), And(eq(dE, -L), eq(dF, 0)), And(eq(dE, L), eq(dF, L)))))
+    dF2 = If(mv, dF, dF - dE)
+    maxF2 = ops.Max(maxF, dF2)
+    # when the forwarded original command extrudes, the physical depth at that moment equals the file's
+    at_cmd = True
+    for (info, a, b) in log:
+        if info == "orig":
+            at_cmd = Implies(And(mv, dE > 0), eq(depth(a), dF))
+    return Implies(And(file_ok, depth_inv(o, P, dF, L, maxF), inv_e(o, P)),
+                   And(depth_inv(n, Q, dF2, L, maxF2), at_cmd))
